@@ -19,8 +19,8 @@ func cmdDomains(args []string) int {
 	}
 	rng := NewPRNG(cf.seed)
 	prefixes := [][]byte{domProposer, domAttester, domRandao, {3, 0, 0, 0}, domExit, domSelProof, {1, 0, 0, 1}, {0, 0, 1, 0}, {4, 0, 0, 1}, {1, 1, 0, 0}}
-	adminLists := [][]string{{}, {"10.0.0.1"}, {"10.0.0.1", "10.0.0.7", "192.168.1.1"}}
-	sources := []string{"", "10.0.0.1", "10.0.0.7", "10.0.0.9"}
+	adminLists := [][]string{{}, {"10.0.0.1"}, {"10.0.0.1", "10.0.0.7", "192.168.1.1"}, {"2001:db8::1", "10.0.0.1"}}
+	sources := []string{"", "10.0.0.1", "10.0.0.7", "10.0.0.9", "2001:db8::1", "2001:db8::2", "2001:db8:ffff:1::99"}
 	rounds := 2
 	if cf.tier == "thorough" {
 		rounds = 12
